@@ -18,6 +18,7 @@ import (
 	"context"
 	"reflect"
 
+	apiequality "k8s.io/apimachinery/pkg/api/equality"
 	"k8s.io/apimachinery/pkg/api/meta"
 	"k8s.io/apimachinery/pkg/runtime"
 	"k8s.io/apimachinery/pkg/util/validation/field"
@@ -130,8 +131,9 @@ func (s DefaultRESTStrategy) PrepareForUpdate(ctx context.Context, obj, old runt
 		specOld := reflect.ValueOf(old).Elem().FieldByName("Spec")
 
 		// Spec and annotation updates bump the generation.
-		if !reflect.DeepEqual(specNew, specOld) ||
-			!reflect.DeepEqual(accessorNew.GetAnnotations(), accessorOld.GetAnnotations()) {
+		// compare the values themselves, not the reflect.Value wrappers (which never compare equal)
+		if !apiequality.Semantic.DeepEqual(specNew.Interface(), specOld.Interface()) ||
+			!apiequality.Semantic.DeepEqual(accessorNew.GetAnnotations(), accessorOld.GetAnnotations()) {
 			accessorNew.SetGeneration(accessorOld.GetGeneration() + int64(1))
 		}
 	}
